@@ -252,16 +252,7 @@ def execute(case, stats, log):
 candidates = c09.candidates
 
 
-def finding_matches(case, result, fd):
-    if fd["id"] == "F15":
-        if result.get("cls") != "same-name-different-structure":
-            return False
-        keys = ("array.unify-chunks-policy", "array.unify-chunks-limit")
-        if not any(e["ev"] == "config" and e.get("key") in keys for e in case["history"]):
-            return False
-        from ..worker import exec_case
-        import sys
-
-        abl = dict(case, history=[e for e in case["history"] if not (e["ev"] == "config" and e.get("key") in keys)])
-        return exec_case(sys.modules[__name__], abl)["status"] == "ok"
-    return False
+FINDING_ABLATIONS = {
+    "F15": (lambda case, result: result.get("cls") == "same-name-different-structure" and H.pre_unify_flip(case, result), H.abl_unify_flip),
+    "F20": (H.pre_userfn, H.ablate_userfns),
+}
